@@ -145,6 +145,7 @@ class Ctx:
         kf = known_fingerprints(self.pid)
         exit_code = 0
         n_unlisted = 0
+        confirmed_violation = False
         os.makedirs(os.path.join(OUT, 'replays'), exist_ok=True)
         for fp in sorted(self.violations):
             vs = self.violations[fp]
@@ -176,7 +177,7 @@ class Ctx:
             print('  fingerprint: %s  cases: %d' % (fp, self.viol_counts[fp]))
             print('  what: %s' % v.what[:600])
             n_unlisted += 1
-            exit_code = max(exit_code, 1)
+            confirmed_violation = True
         # vacuity: clauses that must have been exercised
         cov = dict(self.coverage)
         cov['samples'] = self.samples if self.samples else cov.get('samples', [])
@@ -199,6 +200,8 @@ class Ctx:
         with open(os.path.join(OUT, 'evidence', '%s.json' % self.pid), 'w') as f:
             json.dump(ev, f, indent=1, default=str)
         summ = {k: v for k, v in cov.items() if isinstance(v, (int, float, bool))}
+        if confirmed_violation:
+            exit_code = 1      # a confirmed, replayed violation decides the exit status even if another one did not reproduce
         print('%s %s: %s wall=%.1fs exit=%d' % (self.pid, self.tier, json.dumps(summ, sort_keys=True), ev['wall_s'], exit_code))
         return exit_code
 
